@@ -1,10 +1,16 @@
 #!/bin/sh
-# Builds the framework from files on disk only (offline): Lean library + driver, Go tools.
+# Builds the framework from files on disk only (offline): regenerated facts, Lean library (all claimed
+# property theorem files) + driver executable, Go tools.
 set -e
 cd "$(dirname "$0")"
 export GOFLAGS=-mod=mod GOPROXY=off
 mkdir -p .build evidence
 (cd harness && go build -tags verif -o ../.build/gofacts ./cmd/gofacts && ../.build/gofacts ../lean/SST/Generated)
-(cd lean && lake build)
+[ -f tools/ksy2lean.py ] && python3 tools/ksy2lean.py --repo /repo
+MODS=$(python3 -c "
+import sys; sys.path.insert(0,'tools')
+from props import PROPS
+print(' '.join('SST.Props.'+p for p in PROPS))")
+(cd lean && lake build sstdrv $MODS)
 (cd harness && go build -tags verif -o ../.build/sstcheck ./cmd/sstcheck)
 echo setup-ok
